@@ -203,6 +203,10 @@ def perm(n: int) -> Any:
 # ----------------------------------------------------------------------------
 
 QAP_EDGES = (127, 255, 32767, 65535, 2 ** 31 - 1, 2 ** 32 - 1)
+# targets for the trivial upper bound far above the storage-type edges: the
+# raised entry then exceeds 10^12 (but the bound stays below 10^15)
+QAP_HUGE_TARGETS = (5 * 10 ** 12, 123456789012345, 899999999999999,
+                    10 ** 15 - 5)
 QAP_LIMIT = 10 ** 15
 
 #: (dtype of the distance input, dtype of the flow input): a fixed small set,
@@ -231,8 +235,16 @@ def qap_matrices(draw: Any, min_n: int = 1, max_n: int = 8) -> dict:
     if cls == "edge":
         # one side 0/1, the other small; then the largest entry of the other
         # side is raised so that the bound hits a target next to a type limit
-        edge = draw(st.sampled_from(QAP_EDGES))
+        edge = draw(st.sampled_from(QAP_EDGES + QAP_HUGE_TARGETS[:2]
+                                    + QAP_HUGE_TARGETS))
         ones = draw(st.lists(st.integers(0, 1), min_size=n2, max_size=n2))
+        if edge > 2 ** 33 and sum(ones) > 3:  # keep the raised entry huge
+            keep = 0
+            for t in range(n2):
+                if ones[t]:
+                    keep += 1
+                    if keep > 2:
+                        ones[t] = 0
         if sum(ones) == 0:
             ones[draw(st.integers(0, n2 - 1))] = 1
         k = sum(ones)
